@@ -146,7 +146,7 @@ def backend_runs(r, quick):
 
 
 def run():
-    chk = Check("C19", props_modules=["GFO.Props.C19", "GFO.Props.LocalRuns", "GFO.Gen.TrackerGenCheck"], gen_steps=(translators.gen_tracker,))
+    chk = Check("C19", props_modules=["GFO.Props.C19", "GFO.Props.LocalRuns", "GFO.Props.PopRuns", "GFO.Gen.TrackerGenCheck"], gen_steps=(translators.gen_tracker,))
     chk.build_and_audit()
     r = C.rng("C19")
     quick = C.tier() != "thorough"
@@ -161,5 +161,6 @@ def run():
     chk.assumptions.append("the link 'log entry = really evaluated pair' (pos_new of the receiving tracker is the position returned to the driver) is established per run by the monitor")
     from . import localgen
     localgen.add_to(chk, C.rng("C19-local"), 8 if C.tier() != "thorough" else 80, constraint_p=0.5)
+    localgen.add_pt_to(chk, C.rng("C19-pt"), 20 if C.tier() != "thorough" else 200, constraint_p=0.5)
     scen.shutdown_manager()
     return chk.finish()
